@@ -1,22 +1,22 @@
 //! Seeded generator of well-formed models (as bytes, through mirror structs with the same field
 //! order as vaporetto's private model types) and a brute-force reference of the linear model.
-use bincode::Encode;
+use bincode::{Decode, Encode};
 
-#[derive(Encode, Clone)]
+#[derive(Encode, Decode, Clone)]
 pub struct NgramData<T> { pub ngram: T, pub weights: Vec<i32> }
-#[derive(Encode, Clone)]
+#[derive(Encode, Decode, Clone)]
 pub struct NgramModel<T>(pub Vec<NgramData<T>>);
-#[derive(Encode, Clone)]
+#[derive(Encode, Decode, Clone)]
 pub struct TagWeight { pub rel_position: u8, pub weights: Vec<i32> }
-#[derive(Encode, Clone)]
+#[derive(Encode, Decode, Clone)]
 pub struct TagNgramData<T> { pub ngram: T, pub weights: Vec<TagWeight> }
-#[derive(Encode, Clone)]
+#[derive(Encode, Decode, Clone)]
 pub struct TagNgramModel<T>(pub Vec<TagNgramData<T>>);
-#[derive(Encode, Clone)]
+#[derive(Encode, Decode, Clone)]
 pub struct WordWeightRecord { pub word: String, pub weights: Vec<i32>, pub comment: String }
-#[derive(Encode, Clone)]
+#[derive(Encode, Decode, Clone)]
 pub struct DictModel(pub Vec<WordWeightRecord>);
-#[derive(Encode, Clone)]
+#[derive(Encode, Decode, Clone)]
 pub struct TagModel {
     pub token: String,
     pub tags: Vec<Vec<String>>,
@@ -24,7 +24,7 @@ pub struct TagModel {
     pub type_ngram_model: TagNgramModel<Vec<u8>>,
     pub bias: Vec<i32>,
 }
-#[derive(Encode, Clone)]
+#[derive(Encode, Decode, Clone)]
 pub struct ModelData {
     pub char_ngram_model: NgramModel<String>,
     pub type_ngram_model: NgramModel<Vec<u8>>,
@@ -38,6 +38,14 @@ pub struct ModelData {
 pub const MAGIC: &[u8] = b"VaporettoTokenizer 0.5.0\n";
 
 impl ModelData {
+    /// decodes the bytes written by Model::write / Model::to_vec (same field order as the private model types)
+    #[allow(dead_code)]
+    pub fn from_bytes(b: &[u8]) -> Option<Self> {
+        if !b.starts_with(MAGIC) {
+            return None;
+        }
+        bincode::decode_from_slice(&b[MAGIC.len()..], bincode::config::standard()).ok().map(|(m, _)| m)
+    }
     pub fn to_bytes(&self) -> Vec<u8> {
         let mut v = MAGIC.to_vec();
         v.extend(bincode::encode_to_vec(self, bincode::config::standard()).unwrap());
